@@ -32,10 +32,11 @@ func Sum(modes ...*traits.ElectricMode) *traits.ElectricMode {
 		if mode.StartTime != nil {
 			stCount++
 			st := mode.StartTime.AsTime()
-			if earliest.IsZero() || st.Before(earliest) {
+			// stCount, not IsZero, says whether a start time has been seen: 0001-01-01T00:00:00Z is a valid start time
+			if stCount == 1 || st.Before(earliest) {
 				earliest = st
 			}
-			if latest.IsZero() || st.After(latest) {
+			if stCount == 1 || st.After(latest) {
 				latest = st
 			}
 		}
